@@ -348,6 +348,71 @@ class C02(Prop):
                             out.append(Failure({'kind': 'reply_and_disconnect', 'transport': transport, 'how': how, 'send_buffer_full': full_buffer, 'in_batch': batch}, o2,
                                                f"a request answered by hanging up ({how}{', send buffer full at that moment' if full_buffer else ''}) got "
                                                f"{o2['responses_with_id_31']} responses carrying its id (closed: {o2['closed']}): exactly one, then the close"))
+        # (a) more slow requests than slots: those still QUEUED for a slot when the processing time limit expires are answered
+        # (server busy) exactly once each, like the ones that time out inside their handler - alone and as batch members;
+        # (b) over-long lines (dropped by the framer) between requests: every request before, between and after them is
+        # answered exactly once
+        from aiorpcx import framing
+        for transport in ('rs', 'us'):
+            for scenario in ('queued_timeouts', 'queued_timeouts_batch', 'overlong_between', 'overlong_first'):
+                loop = sessions.new_loop()
+                try:
+                    class S3(session.RPCSession):
+                        initial_concurrent = 2
+                        processing_timeout = 1.0
+                        cost_hard_limit = 0
+
+                        async def handle_request(self, request):
+                            if request.method == 'slow':
+                                await asyncio.sleep(5)
+                            return 'pong'
+                    proto, ft, s3 = sessions.attach(S3, 'server', transport, framer=framing.NewlineFramer(max_size=300))
+
+                    def req(m, i):
+                        return '{"jsonrpc":"2.0","method":"%s","id":%d}' % (m, i)
+
+                    async def main3():
+                        await sessions.settle(3)
+                        ids = []
+                        if scenario == 'queued_timeouts':
+                            for i in range(1, 7):
+                                proto.data_received(req('slow', i).encode() + b'\n')
+                                ids.append(i)
+                        elif scenario == 'queued_timeouts_batch':
+                            proto.data_received(('[' + ','.join(req('slow', i) for i in range(1, 6)) + ']').encode() + b'\n')
+                            ids += list(range(1, 6))
+                        else:
+                            if scenario == 'overlong_between':
+                                proto.data_received(req('ping', 1).encode() + b'\n')
+                                ids.append(1)
+                                await asyncio.sleep(0.1)
+                                proto.data_received(('[' + req('ping', 2) + ',' + req('ping', 3) + ']').encode() + b'\n')
+                                ids += [2, 3]
+                                await asyncio.sleep(0.1)
+                            for k in range(2):
+                                proto.data_received(b'x' * 350)
+                                await asyncio.sleep(0.1)
+                                proto.data_received(b'y' * 100 + b'\n')
+                                await asyncio.sleep(0.1)
+                                proto.data_received(req('ping', 10 + k).encode() + b'\n')
+                                ids.append(10 + k)
+                                await asyncio.sleep(0.1)
+                        await asyncio.sleep(20)
+                        proto.data_received(req('ping', 99).encode() + b'\n')
+                        ids.append(99)
+                        await asyncio.sleep(1)
+                        msgs = sessions.sent_messages(ft, 0)
+                        flat = [e for m in msgs for e in (m if isinstance(m, list) else [m])]
+                        return {'responses_per_id': {str(i): sum(1 for e in flat if isinstance(e, dict) and e.get('id') == i) for i in ids},
+                                'closed': ft.closing or ft.lost, 'loop_alive': not proto._process_messages_task.done()}
+                    o3 = loop.run_until_complete(main3())
+                finally:
+                    sessions.close_loop(loop)
+                nd += 1
+                wrong = {i: k for i, k in o3['responses_per_id'].items() if k != 1}
+                if wrong and not o3['closed']:
+                    out.append(Failure({'kind': 'session_stream', 'scenario': scenario, 'transport': transport}, o3,
+                                       f"{scenario}: requests were not answered exactly once each (responses per id, where not 1: {wrong})"))
         ctx['extra_evals'] += nd
         ctx['notes'].append(f'reply-and-disconnect / excessive-cost refusals through a real RPCSession, send buffer free and full: {nd} scenarios')
         return out[:4]
